@@ -191,4 +191,32 @@ theorem Eth_detects_flip (s t : Eth) (h : Eth_WF s) (k : Nat) (hk : k < 8 * (eth
 example : Eth_WF { Eth.fresh with dstmac := 1, srcmac := 2, payload := [0xAA] } := by
   simp [Eth_WF, Eth.fresh, ETH_TYPE_IP, ETH_TYPE_VLAN]
 
+/-! ### review additions: joint witnesses -/
+
+/-- identification 0xFFFF, TTL 255, don't-fragment, odd payload length -/
+def ipExample : IP :=
+  { IP.fresh with
+    srcip := some 0xC0A80001, dstip := some 0xEFFFFFFF, ident := 0xFFFF, ttl := 255, protocol := 17, flags := 2,
+    payload := [1, 2, 3] }
+
+/-- witness for `IPv4_checksum_std` / `IPv4_verify_zero`; the emitted checksum bytes are CB 2C -/
+example : IP_WF ipExample 0xC0A80001 0xEFFFFFFF ∧
+    ((IP.pack ipExample).2.toOption.map fun b => slice b 10 12) = some [0xCB, 0x2C] := by
+  refine ⟨by unfold IP_WF; decide, by decide +kernel⟩
+
+/-- witnesses for `IGMP_join_checksum_std`: the empty list, one group (record type 4), several groups (type 2) -/
+example : ([] : List Nat).length < 65536 ∧ [0xE0000001].length < 65536 ∧ [0xE0000001, 0xEFFFFFFF, 0xE00000FB].length < 65536 := by
+  decide
+
+def ethExample : Eth := { Eth.fresh with dstmac := 1, srcmac := 2, payload := [0xAA] }
+
+/-- joint witness for `Eth_detects_byte` (a byte of the header, a payload byte, a byte of the FCS) and
+    `Eth_detects_flip` (first and last bit of the 19-byte frame) -/
+example : Eth_WF ethExample ∧ (ethFrame ethExample true).length = 19 ∧
+    (0 < (ethFrame ethExample true).length ∧ (ethFrame ethExample true)[0]? ≠ some 0xFF) ∧
+    (14 < (ethFrame ethExample true).length ∧ (ethFrame ethExample true)[14]? ≠ some 0xAB) ∧
+    (18 < (ethFrame ethExample true).length ∧ (ethFrame ethExample true)[18]? ≠ some 0) ∧
+    0 < 8 * (ethFrame ethExample true).length ∧ 151 < 8 * (ethFrame ethExample true).length := by
+  refine ⟨by simp [Eth_WF, ethExample, Eth.fresh, ETH_TYPE_IP, ETH_TYPE_VLAN], ?_, ?_, ?_, ?_, ?_, ?_⟩ <;> decide +kernel
+
 end Acra.Props.C07
